@@ -32,21 +32,22 @@ LongCompositions == { [n |-> 40, chunks |-> c] : c \in CompA(40, {3, 13, 16, 17,
                \cup { [n |-> 33, chunks |-> c] : c \in CompA(33, {1, 15, 16, 17}) }
 
 Edges == { [posn |-> p, len |-> n] : p \in 0..15, n \in 0..48 }
+         \cup { [posn |-> p, len |-> n] : p \in {0, 1, 8, 15}, n \in {63, 64, 65, 127, 128, 129, 255, 257, 1000} }
 
 KeyLens == IF Thorough THEN {0, 1, 15, 16, 31, 32, 33, 63, 64, 65, 66, 100, 127, 128, 129, 200, 257}
            ELSE {0, 1, 31, 32, 33, 63, 64, 65, 66, 100, 128, 200, 257}
 MsgLens == IF Thorough THEN {0, 1, 15, 16, 17, 31, 32, 33, 63, 64, 65, 100, 255, 1000}
-           ELSE {0, 1, 15, 16, 17, 63, 64, 65, 100}
+           ELSE {0, 1, 15, 16, 17, 63, 64, 65, 100, 300}
 HmacGrid == { [klen |-> k, mlen |-> m] : k \in KeyLens, m \in MsgLens }
 
 HkdfEdges == { [posn |-> p, len |-> n] : p \in {0, 1, 5, 16, 31, 32}, n \in {0, 1, 5, 26, 27, 31, 32, 33, 64, 65, 100} }
 HkdfGrid == { [klen |-> k, slen |-> s, ilen |-> i, len |-> n] :
-                k \in {0, 1, 32, 80}, s \in {0, 13, 32, 64, 65}, i \in {0, 1, 10, 80},
+                k \in {0, 1, 32, 80, 200}, s \in {0, 13, 32, 64, 65, 200}, i \in {0, 1, 10, 80, 200},
                 n \in IF Thorough THEN {0, 1, 31, 32, 33, 42, 64, 82, 100, 255} ELSE {1, 32, 33, 82} }
 
 PbGrid == { [plen |-> p, slen |-> s, count |-> c, len |-> n] :
-              p \in IF Thorough THEN {0, 1, 32, 63, 64, 65, 100, 200} ELSE {0, 8, 63, 64, 65, 100},
-              s \in IF Thorough THEN {0, 1, 8, 13, 28, 60, 64, 100} ELSE {0, 8, 13, 60},
+              p \in IF Thorough THEN {0, 1, 32, 63, 64, 65, 100, 200} ELSE {0, 8, 63, 64, 65, 100, 200},
+              s \in IF Thorough THEN {0, 1, 8, 13, 28, 60, 64, 100, 200} ELSE {0, 8, 13, 60, 200},
               c \in IF Thorough THEN {0, 1, 2, 3, 4, 5, 17} ELSE {0, 1, 2, 3, 5},
               n \in IF Thorough THEN {0, 1, 31, 32, 33, 64, 65, 100} ELSE {1, 32, 33, 70} }
 
